@@ -69,6 +69,9 @@ def gen_diagram(rng):
             lines.append(f"{ref(b)} {arrow} {ref(a)}")
         else:
             lines.append(f"{ref(a)} {arrow} {ref(b)}")
+        if rng.random() < 0.15:
+            # the same arrow drawn a second time (each end spelt anew: by name, bracketed, by alias): drawing it twice states nothing new
+            lines.append(f"{ref(a)} --> {ref(b)}")
     for _ in range(rng.randint(0, 3)):
         lines.append(rng.choice(NOISE_IN))
     rng.shuffle(lines)
